@@ -543,6 +543,26 @@ func c08Run(c *Ctx) {
 			}
 		}
 	}
+	// wide family: more results than the internal initial capacity (32) and its first doubling (64)
+	for _, width := range []int{33, 70} {
+		for _, key := range []string{"k", "x", "*", "w05"} {
+			if !c.Mine() {
+				continue
+			}
+			c.S.States++
+			c.S.Evaluations++
+			width := width
+			explore(99, func(ch []int) {
+				wm := map[string]interface{}{}
+				wl := make([]interface{}, width)
+				for i := 0; i < width; i++ {
+					wm[fmt.Sprintf("w%02d", i)] = map[string]interface{}{"k": fmt.Sprintf("m%d", i)}
+					wl[i] = map[string]interface{}{"k": fmt.Sprintf("l%d", i), "x": []interface{}{fmt.Sprintf("x%d", i)}}
+				}
+				c08Key(c, map[string]interface{}{"m": wm, "l": wl}, key, ch)
+			})
+		}
+	}
 	// part 2
 	var specsFor = func(sep string) [][]string {
 		var single []string
